@@ -19,7 +19,12 @@ SEL_OPTS = ["dir=up,sim=no", "dir=up,sim=yes", "dir=down,rec=no,sim=no", "dir=do
 SFX_NAMES = ["s", "s_1", "s_2", "s_1_1", "s_1_2", "s_2_1", "s_2_2", "t", "t_1", "t_2", "s_1_1_1", "t_2_2"]
 
 
+LONG_PREFIX = "a_state_with_a_rather_long_name_shared_by_all_"      # 47 characters: names differ only after position 40
+
+
 def sname(q, sfx=False):
+    if sfx == "long":
+        return LONG_PREFIX + str(q)
     if sfx and 0 <= q < len(SFX_NAMES):
         return SFX_NAMES[q]
     return "q%d" % q
@@ -85,8 +90,9 @@ def incl_events(cases, rd, repr_="expl"):
         open(fa, "w").write(ta_text(c["A"], "A"))
         open(fb, "w").write(ta_text(c["B"], "B"))
         v = []
+        pre = [["-p"], ["-s"], [], [], [], []][i % 6] if repr_ == "expl" else []
         for o in SEL_OPTS:
-            out, st = run_vata(["-r", repr_, "-o", o, "incl", fa, fb])
+            out, st = run_vata(["-r", repr_] + pre + ["-o", o, "incl", fa, fb])
             v.append(verdict(out, st))
         os.remove(fa)
         os.remove(fb)
@@ -219,7 +225,7 @@ def ta_op_events(cases, rd, repr_="expl"):
         i, c = ic
         cmd = c["cmd"]
         fa = os.path.join(d, "oa%d.txt" % i)
-        sfx = (i % 3 == 0)
+        sfx = (True if i % 3 == 0 else ("long" if i % 3 == 1 and i % 2 == 0 else False))
         txt = ta_text(c["A"], "A", sfx)
         if cmd == "cmpl" and c.get("syms"):
             # the alphabet of the complement is what the Ops line declares (incl. unused symbols)
@@ -287,7 +293,7 @@ def fa_op_events(cases, rd):
         i, c = ic
         cmd = c["cmd"]
         fa = os.path.join(d, "na%d.txt" % i)
-        sfx = (i % 3 == 0)
+        sfx = (True if i % 3 == 0 else ("long" if i % 3 == 1 and i % 2 == 0 else False))
         open(fa, "w").write(nfa_text(c["A"], "A", sfx))
         files = [fa]
         if "B" in c and cmd in ("union", "isect"):
